@@ -24,6 +24,7 @@ ExpectRoutes ==
    "local_expectation_cluster", "local_expectation_cluster_maxbond", "local_expectation_cluster_loopunion",
    "local_expectation_compressed", "compute_local_expectation_compressed",
    "local_expectation_gloop_expand", "local_expectation_gloop_expand_reduced",
+   "compute_local_expectation_gloop_expand",
    "local_expectation_gloop_expand_auto", "local_expectation_sloop_expand",
    "local_expectation_canonical", "compute_local_expectation_canonical", "compute_local_expectation_via_envs",
    "expec_TN_1D",
@@ -34,7 +35,7 @@ RdmRoutes ==
    "partial_trace_compressed", "partial_trace_compressed_reduce", "make_reduced_density_matrix",
    "partial_trace_to_dense_canonical", "partial_trace_to_mpo", "peps3d_partial_trace"}
 OperatorRoutes == {"operator_trace", "operator_partial_transpose", "mpo_trace", "mpo_partial_transpose"}
-NormRoutes == {"peps_compute_norm", "peps_normalize"}
+NormRoutes == {"peps_compute_norm", "peps_normalize", "norm_gloop_expand"}
 Routes == ExpectRoutes \cup RdmRoutes \cup OperatorRoutes \cup NormRoutes
 
 (* ---------------- (1) availability -------------------------------------- *)
@@ -57,7 +58,7 @@ Exercised(route, cls, n, asc, bare, nrm, thin) ==
         [] route = "expec_TN_1D"  -> cls = "mps"                   \* (the driver has no cyclic MPO helper)
         [] route \in {"partial_trace_to_mpo", "mpo_trace", "mpo_partial_transpose"}
              -> OneD(cls) /\ asc /\ ~nrm /\ ~bare                 \* documented to keep ascending order; no normalisation option
-        [] route \in {"peps_compute_local_expectation", "peps_compute_local_expectation_envs"} \cup NormRoutes
+        [] route \in {"peps_compute_local_expectation", "peps_compute_local_expectation_envs", "peps_compute_norm", "peps_normalize"}
              -> cls = "peps"
         [] route \in {"peps3d_compute_local_expectation", "peps3d_partial_trace"} -> cls = "peps3d"
         [] route = "compute_local_expectation_compressed" -> Gen(cls)   \* the lattice classes shadow it with their own method
@@ -80,7 +81,7 @@ Avail(route, cls, n, asc, bare, nrm, thin) ==
         [] route = "local_expectation_cluster_loopunion" -> tup /\ cls \notin {"mps", "tree"}   \* needs a loop through the sites
         [] route = "local_expectation_compressed"        -> tup /\ (cls = "peps" \/ Gen(cls))   \* MPS.partial_trace is a renamed stub, PEPS3D.partial_trace has another signature
         [] route = "compute_local_expectation_compressed" -> tup
-        [] route \in {"local_expectation_gloop_expand", "local_expectation_gloop_expand_reduced",
+        [] route \in {"local_expectation_gloop_expand", "local_expectation_gloop_expand_reduced", "compute_local_expectation_gloop_expand",
                       "local_expectation_gloop_expand_auto", "local_expectation_sloop_expand"} -> tup
         [] route = "local_expectation_canonical"         -> cls = "mps"                          \* cyclic: NotImplementedError
         [] route = "compute_local_expectation_canonical" -> cls = "mps" /\ tup
@@ -157,7 +158,7 @@ FamilyDen(fam, psi, dims, sites, mut) ==
 FamilyOf(route) ==
   CASE route \in {"local_expectation_exact", "local_expectation_exact_return", "compute_local_expectation_exact",
                   "local_expectation_cluster", "local_expectation_cluster_loopunion",
-                  "local_expectation_gloop_expand", "local_expectation_gloop_expand_reduced",
+                  "local_expectation_gloop_expand", "local_expectation_gloop_expand_reduced", "compute_local_expectation_gloop_expand",
                   "local_expectation_gloop_expand_auto", "local_expectation_sloop_expand"} -> "rho_tensordot"
     [] route \in {"local_expectation_canonical", "compute_local_expectation_canonical"} -> "trace_G_rho"
     [] route \in {"local_expectation_compressed", "compute_local_expectation_compressed",
